@@ -43,6 +43,27 @@ func main() {
 		os.Exit(cmdMutant(os.Args[2:]))
 	case "try":
 		os.Exit(cmdTry(os.Args[2:]))
+	case "e8":
+		// developer aid: run single comparison-network rows
+		p, err := Load(LoadConfig{RepoDir: repoDir("")})
+		if err != nil {
+			fmt.Println(err)
+			os.Exit(2)
+		}
+		c := NewCheck("E8", "quick")
+		ids := os.Args[2:]
+		if len(ids) == 0 {
+			for id := range p.e8Rows() {
+				ids = append(ids, id)
+			}
+			sort.Strings(ids)
+		}
+		for _, id := range ids {
+			t := time.Now()
+			p.ruleE8(c, id)
+			o := c.Obs[len(c.Obs)-1]
+			fmt.Printf("%-55s %-11s %5.2fs %s %s\n", id, o.Status, time.Since(t).Seconds(), o.Detail, o.Observed)
+		}
 	case "list":
 		ids := []string{}
 		for id := range properties {
